@@ -1,10 +1,44 @@
 package main
 
 import (
+	"os"
 	"runtime"
+	"strings"
 	"sync"
 	"sync/atomic"
+
+	"github.com/IrineSistiana/mosproxy/verif/internal/racelog"
 )
+
+// selfRaces returns the race reports the race detector has logged so far for this very process
+// (the check script points GORACE log_path at $VERIF_SELFRACE) whose stacks contain a frame
+// matching one of the given substrings (e.g. "/internal/cache."). Harness-only races never match
+// because only mosproxy frames are given.
+func selfRaces(frameSubstr ...string) []racelog.Report {
+	base := os.Getenv("VERIF_SELFRACE")
+	if base == "" {
+		return nil
+	}
+	var out []racelog.Report
+	for _, r := range racelog.ParseFiles(base + ".*") {
+		if !r.Mosproxy {
+			continue
+		}
+		for _, f := range r.Frames {
+			hit := false
+			for _, sub := range frameSubstr {
+				if strings.Contains(f, sub) {
+					hit = true
+				}
+			}
+			if hit {
+				out = append(out, r)
+				break
+			}
+		}
+	}
+	return out
+}
 
 // parallelFor runs fn(i) for i in [0,n) on up to workers goroutines; stops early when stop() is true.
 func parallelFor(n, workers int, stop func() bool, fn func(i int)) {
